@@ -113,6 +113,9 @@ func VerifC05_e1_do() {
 		wantStatus = http.StatusInternalServerError
 	}
 	verifObserve("status", w.status)
+	if wantName != "" {
+		verifAssert("openapi:response-conforms", verifSchemaAccepts(openapiDoc, "POST /do", map[string]any{"response:" + itoa(w.status): w.encoded[0]}))
+	}
 	verifAssert("status-as-designed-or-default-mapping", w.status == wantStatus)
 	verifAssert("goa-error-header-names-the-error", w.h.Get("goa-error") == wantName)
 	if wantName == "" {
